@@ -583,6 +583,10 @@ class GtkDocAnnotations(OrderedDict):
     def __copy__(self):
         return GtkDocAnnotations(self, position=self.position)
 
+    def copy(self):
+        # OrderedDict.copy() would build the copy without the position
+        return self.__copy__()
+
 
 class GtkDocAnnotatable(object):
     '''
